@@ -234,6 +234,67 @@ func kfD13() string {
 	return "clean"
 }
 
+// runWriterContract drives the real writers directly (no Session): frames with unique first byte, contexts
+// cancelled while waiting for the semaphore / inside the coalescing window. Outcome "cancel" = the writer
+// reported (0, ctx error), which exec treats as "never written".
+func runWriterContract(r *vh.Rng) (string, string) {
+	n := 2 + r.Intn(6)
+	coalesce := time.Duration(0)
+	writeDelay := time.Duration(0)
+	cls := "contract/direct"
+	if r.Bool() {
+		coalesce = time.Duration(1+r.Intn(3)) * time.Millisecond
+		cls = "contract/coalesce"
+	} else {
+		writeDelay = time.Duration(200+r.Intn(800)) * time.Microsecond
+	}
+	frames := make([][]byte, n)
+	start := make([]time.Duration, n)
+	cancel := make([]time.Duration, n)
+	for i := range frames {
+		l := 2 + r.Intn(40)
+		frames[i] = make([]byte, l)
+		for j := range frames[i] {
+			frames[i][j] = byte(i + 1)
+		}
+		start[i] = time.Duration(r.Intn(600)) * time.Microsecond
+		if r.Intn(2) == 0 {
+			cancel[i] = time.Duration(50+r.Intn(2500)) * time.Microsecond
+		}
+	}
+	res, wire := gocql.VerifRunWriter(coalesce, writeDelay, frames, start, cancel)
+	var chunks []string
+	for len(wire) > 0 {
+		id := int(wire[0])
+		k := 0
+		for k < len(wire) && int(wire[k]) == id {
+			k++
+		}
+		total := k
+		if id >= 1 && id <= n {
+			total = len(frames[id-1])
+		}
+		chunks = append(chunks, fmt.Sprintf("%d:%d:%d", id, total, k))
+		wire = wire[k:]
+	}
+	outs := make([]string, n)
+	for i, x := range res {
+		o := "err"
+		switch {
+		case x.Err == "" && x.N == len(frames[i]):
+			o = "ok"
+		case x.Err == "ctx" && x.N == 0:
+			o = "cancel"
+		}
+		outs[i] = fmt.Sprintf("%d:%s", i+1, o)
+	}
+	ch := "-"
+	if len(chunks) > 0 {
+		ch = strings.Join(chunks, ";")
+	}
+	return fmt.Sprintf("trace closed=0 %s %s", ch, strings.Join(outs, ";")), cls
+}
+
 func exec(op string) string {
 	w := strings.Fields(op)
 	switch w[0] {
@@ -311,6 +372,10 @@ func main() {
 			co = "coalesce"
 		}
 		out.Case(op, "accept", "trace/"+co+"/"+cls, true)
+	}
+	for i := 0; i < 150*mult; i++ {
+		op, cls := runWriterContract(r)
+		out.Case(op, "accept", cls, true)
 	}
 	out.Close(nil)
 }
